@@ -585,22 +585,63 @@ def _reaches(g, s, targets, limit):
 
 
 def _find_unmodified_cycle(g, fn, entries, cond_blocks, region_ids, vs, summaries):
-    """Search a path entry -> cond block on which nothing in vs is written. Returns location list."""
-    stack = [(e, [e]) for e in entries]
+    """Search a path entry -> cond block on which nothing in vs is written and which passes no exit test fed by this
+    iteration. An exit test is a two-way branch inside the loop with one edge from which the head is no longer
+    reachable inside the loop (break / return), whose condition calls something or reads a variable written earlier
+    on the path: `while (true) { r = next(); if (r) break; }` and `while (!done) { r = next(); if (r) break; }` are the
+    same loop. Returns location list."""
+    def in_loop(s):
+        sb = g.blocks[s]
+        ids = list(sb.e) + ([sb.t] if sb.t else [])
+        return not (ids and not any(i in region_ids for i in ids)) and s != g.exit
+    body = set()
+    st = [e for e in entries]
+    while st:
+        b = st.pop()
+        if b in body or b in cond_blocks:
+            continue
+        body.add(b)
+        for s in g.succs(b):
+            if s not in cond_blocks and in_loop(s):
+                st.append(s)
+    back = set()
+    grew = True
+    while grew:
+        grew = False
+        for b in body:
+            if b not in back and any(s in cond_blocks or s in back for s in g.succs(b)):
+                back.add(b)
+                grew = True
+    stack = [(e, [e], frozenset()) for e in entries]
     seen = set()
     while stack:
-        b, path = stack.pop()
-        if b in seen:
+        b, path, written = stack.pop()
+        if (b, written) in seen:
             continue
-        seen.add(b)
+        seen.add((b, written))
+        if len(seen) > 20000:
+            return [fn.loc()]
         blk = g.blocks[b]
         wrote = False
+        w2 = set(written)
         for n in g.elements(blk):
-            if writes_of(n, summaries) & vs:
+            w = writes_of(n, summaries)
+            if w & vs:
                 wrote = True
                 break
+            w2 |= w
         if wrote:
             continue
+        written = frozenset(w2)
+        if len(blk.s) == 2 and blk.tc is not None and b in body:
+            ss = [s for s, u in zip(blk.s, blk.u) if s is not None and not u]
+            stays = [s for s in ss if s in cond_blocks or s in back]
+            if len(ss) == 2 and len(stays) == 1:
+                cnd = g.branch_cond(blk)
+                if cnd is not None:
+                    cv, has_call = cond_vars(cnd)
+                    if has_call or (cv & written):
+                        continue        # this iteration's outcome decides an exit: progress is tested on this path
         for s in g.succs(b):
             if s in cond_blocks:
                 # loop-back reached unmodified
@@ -617,7 +658,7 @@ def _find_unmodified_cycle(g, fn, entries, cond_blocks, region_ids, vs, summarie
                 continue  # left the loop
             if s == g.exit:
                 continue
-            stack.append((s, path + [s]))
+            stack.append((s, path + [s], written))
     return None
 
 
@@ -843,42 +884,141 @@ def _use_desc(n):
 # R-ERRCHK
 
 def check_error_checked(ctx, fn, callee, rule='R-ERRCHK'):
-    """Each call to `callee` has its result compared with ErrorCode::NoError, and the failing edge
-    leaves the enclosing loop / function (break / return) before the buffer is interpreted."""
-    cnt = 0
+    """Between a call to `callee` (result r, record buffer b) and the next such call, b - or a pointer
+    derived from it - is only read where r == ErrorCode::NoError has been established: forward
+    dataflow over the CFG with the status of the last read (N: none or checked, U: unchecked,
+    X: unchecked and r overwritten, E: failed); comparisons of r with NoError refine it on their
+    edges, whatever statement form they are written in."""
+    g = fn.cfg
+    sites = []
+    rvars = {}
+    bufkeys = set()
     for c in fn.calls(callee):
-        cnt += 1
-        ikey = '%s/call:%s#%d' % (fn.qn, callee.split('::')[-1], cnt - 1)
         p = c.parent
         var = None
         if p is not None and p.k == 'VarDecl':
             var = 'v%d:%s' % (p.d, p.n)
-            stmt = p.parent
-        elif p is not None and is_assign(p):
+        elif p is not None and is_assign(p) and p.op == '=':
             var = lvalue_key(p.child('lhs'))
-            stmt = p
+        sites.append((c, var))
+        if var:
+            rvars.setdefault(var, set()).add(c.id)
+        if len(c.args) > 1:
+            for x in c.args[1].walk():
+                if x.k == 'DeclRefExpr' and lvalue_key(x):
+                    bufkeys.add(lvalue_key(x))
+    if not sites:
+        return 0
+    # pointers derived from the buffer
+    grew = True
+    while grew:
+        grew = False
+        for n in fn.walk():
+            tgt = src = None
+            if n.k == 'VarDecl' and n.child('init') is not None and '*' in (n.t or ''):
+                tgt, src = 'v%d:%s' % (n.d, n.n), n.child('init')
+            elif is_assign(n) and n.op == '=' and '*' in (n.child('lhs').t or ''):
+                tgt, src = lvalue_key(n.child('lhs')), n.child('rhs')
+            if tgt and tgt not in bufkeys and any(x.k == 'DeclRefExpr' and lvalue_key(x) in bufkeys for x in src.walk()):
+                bufkeys.add(tgt)
+                grew = True
+    index = {c.id: i for i, (c, _) in enumerate(sites)}
+
+    def is_noerror(x):
+        x = _strip_casts(x)
+        return x is not None and (x.qn or '').endswith('ErrorCode::NoError')
+
+    def tested(cond):
+        """(result variable or call id, True when the condition holds on success)"""
+        c = _strip_casts(cond)
+        while c is not None and c.k == 'ParenExpr':
+            c = _strip_casts(c.c[0])
+        neg = False
+        while c is not None and c.k == 'UnaryOperator' and c.op == '!':
+            neg = not neg
+            c = _strip_casts(c.child('sub'))
+            while c is not None and c.k == 'ParenExpr':
+                c = _strip_casts(c.c[0])
+        if c is None or c.k != 'BinaryOperator' or c.op not in ('==', '!='):
+            return None
+        l, r = _strip_casts(c.child('lhs')), _strip_casts(c.child('rhs'))
+        if is_noerror(l):
+            l, r = r, l
+        if not is_noerror(r) or l is None:
+            return None
+        while l.k == 'ParenExpr':
+            l = _strip_casts(l.c[0])
+        ok_when_true = (c.op == '==') != neg
+        if l.k in ('CallExpr',) and l.id in index:
+            return (('call', l.id), ok_when_true)
+        if is_assign(l) and l.op == '=' and lvalue_key(l.child('lhs')) in rvars:
+            return (('var', lvalue_key(l.child('lhs'))), ok_when_true)
+        k = lvalue_key(l)
+        if k in rvars:
+            return (('var', k), ok_when_true)
+        return None
+
+    def transfer(n, st):
+        if n.k == 'CallExpr' and n.id in index:
+            return frozenset({('U', index[n.id])})
+        key = None
+        if n.k == 'VarDecl' and n.child('init') is not None:
+            key, rhs = 'v%d:%s' % (n.d, n.n), n.child('init')
+        elif (is_assign(n) and n.op == '=') or n.k == 'CompoundAssignOperator':
+            key, rhs = lvalue_key(n.child('lhs')), n.child('rhs')
+        if key in rvars:
+            r0 = _strip_casts(rhs)
+            if not (r0 is not None and r0.k == 'CallExpr' and r0.id in index):
+                # the result variable now holds something else: the pending read can no longer be vouched for by it
+                return frozenset((('X', i) if s in ('U',) else (s, i)) for (s, i) in st)
+        return st
+
+    def refine(blk, k, succ, st):
+        if len(blk.s) != 2 or blk.tc is None:
+            return st
+        t = tested(g.branch_cond(blk))
+        if t is None:
+            return st
+        (kind, what), ok_when_true = t
+        success_edge = (k == 0) == ok_when_true
+        out = set()
+        for (s, i) in st:
+            mine = (kind == 'call' and index.get(what) == i) or (kind == 'var' and sites[i][1] == what) if i is not None else False
+            if s == 'U' and mine:
+                out.add(('N', None) if success_edge else ('E', i))
+            elif s == 'E' and mine:
+                if not success_edge:
+                    out.add((s, i))
+            else:
+                out.add((s, i))
+        return frozenset(out) if out else None
+
+    ins, edges = g.forward(frozenset({('N', None)}), transfer, refine)
+    ctx.explored['cfg_edges'] += len(edges)
+    bad = {}
+    for b, st in ins.items():
+        for n in g.elements(g.blocks[b]):
+            if n.k == 'DeclRefExpr' and lvalue_key(n) in bufkeys and not any(a.k == 'CallExpr' and a.id in index for a in n.ancestors()):
+                # forming a pointer into the buffer reads nothing
+                par = n.parent
+                decl = next((a for a in n.ancestors() if a.k in ('VarDecl',) or (is_assign(a) and a.op == '=')), None)
+                if not (decl is not None and ((decl.k == 'VarDecl' and 'v%d:%s' % (decl.d, decl.n) in bufkeys) or
+                                              (decl.k != 'VarDecl' and lvalue_key(decl.child('lhs')) in bufkeys and n.pos > decl.child('lhs').pos))):
+                    for (s, i) in st:
+                        if s != 'N':
+                            bad.setdefault(i, (n, s))
+            st = transfer(n, st)
+    for i, (c, var) in enumerate(sites):
+        ikey = '%s/call:%s#%d' % (fn.qn, callee.split('::')[-1], i)
+        if i in bad:
+            n, s = bad[i]
+            why = {'U': 'before the result of the read has been compared with ErrorCode::NoError',
+                   'X': 'after the result of the read was overwritten unchecked',
+                   'E': 'on a path where the read has failed'}[s]
+            ctx.violation(rule, ikey, n.loc(), 'the record buffer is used (`%s`) %s' % ((n.parent.text() if n.parent is not None else n.text())[:60], why))
         else:
-            ctx.violation(rule, ikey, c.loc(), 'result of %s is not stored for checking' % callee)
-            continue
-        while stmt.parent is not None and stmt.parent.k != 'CompoundStmt':
-            stmt = stmt.parent
-        comp = stmt.parent
-        ok = False
-        why = 'no `if (result != ErrorCode::NoError)` immediately after the call'
-        if comp is not None:
-            idx = comp.c.index(stmt)
-            if idx + 1 < len(comp.c) and comp.c[idx + 1].k == 'IfStmt':
-                iff = comp.c[idx + 1]
-                cd = iff.child('cond')
-                if cd.k == 'BinaryOperator' and cd.op == '!=' and lvalue_key(cd.child('lhs')) == var and (cd.child('rhs').qn or '').endswith('ErrorCode::NoError'):
-                    th = iff.child('then')
-                    last = th.c[-1] if th.k == 'CompoundStmt' and th.c else th
-                    if last is not None and last.k in ('ReturnStmt', 'BreakStmt', 'GotoStmt'):
-                        ok = True
-                    else:
-                        why = 'error branch does not end in return/break'
-        ctx.check(ok, rule, ikey, c.loc(), 'result compared with NoError; failing branch leaves before the buffer is used', why)
-    return cnt
+            ctx.ok(rule, ikey, c.loc(), 'result compared with NoError on every path before the buffer is used; failing paths never read it')
+    return len(sites)
 
 
 # ------------------------------------------------------------------------------------------------
